@@ -180,3 +180,10 @@ def lemma_sign_flip_keeps_magnitude(f: Arr(Real, None), g: Arr(Real, None)):
     c1 = hz2cents(f)
     c2 = hz2cents(g)
     ensures(forall(0, length(f), lambda i: a[0][i] == b[0][i] and c1[i] == c2[i]), label='magnitudes-equal')
+
+
+@contract("mir_eval.melody.voicing_measures", props="C01 C03 C14")
+def voicing_measures(ref_voicing: Arr(Real, None), est_voicing: Arr(Real, None)) -> Tup(Real, Real):
+    """the pair (voicing_recall, voicing_false_alarm) of the same arguments"""
+    raises(ValueError, when=not voicing_ok(ref_voicing, est_voicing), props="C14")
+    ensures(0 <= result[0], result[0] <= 1, 0 <= result[1], result[1] <= 1, label='range', props="C01")
